@@ -118,6 +118,21 @@ func (a *RtspClient) request(method, uri string, hdr []string, body string) {
 	a.Conn.Send([]byte(s))
 }
 
+// Keepalive sends an OPTIONS request on an established session (players do that to keep a session alive); the
+// answer arrives between interleaved frames.
+func (a *RtspClient) Keepalive() {
+	if a.stage == "run" && !a.Closed {
+		a.request("OPTIONS", a.Url, nil, "")
+	}
+}
+
+func minInt(a, b int) int {
+	if a < b {
+		return a
+	}
+	return b
+}
+
 // Reannounce sends a second ANNOUNCE on the connection of an established publisher (a confused or hostile client).
 func (a *RtspClient) Reannounce() {
 	a.request("ANNOUNCE", a.Url, nil, a.Sdp)
@@ -220,6 +235,11 @@ func (a *RtspClient) OnData(c *sim.Conn, b []byte) {
 				a.Rtcp = append(a.Rtcp, rec)
 			}
 			continue
+		}
+		// what is not an interleaved frame must be a response: anything else means the '$' framing was lost
+		if probe := string(a.buf[:minInt(len(a.buf), 5)]); !strings.HasPrefix("RTSP/", probe) && !strings.HasPrefix(probe, "RTSP/") {
+			a.Failed = "interleaved stream out of frame: expected '$' or a response, got " + strconv.Quote(string(a.buf[:minInt(len(a.buf), 16)]))
+			return
 		}
 		i := strings.Index(string(a.buf), "\r\n\r\n")
 		if i < 0 {
